@@ -939,6 +939,23 @@ def time_layer(run, rng, tier, model):
             if tn in ("G", "U", "SG", "LG", "CG") and rng.chance(1, 4):
                 lines.append("canon %s xer %s" % (tn, enc_xer(TYPES[tn], v, "input", tn).hex()))
                 meta.append((tn, v, "xer"))
+        # compare_struct: two spellings of one value are equal, different values in the order of (instant, fraction)
+        for tn in ("G", "U"):
+            pool = [v for t_, v, ctz in cases if ctz == tz and t_ == tn]
+            byval = {}
+            for lf in pool:
+                byval.setdefault((lf["t"], lf["frac"]), []).append(lf)
+            pairs = []
+            for key in sorted(byval):
+                lfs = byval[key]
+                for _ in range(min(4 if tier == "quick" else 12, len(lfs) - 1)):
+                    pairs.append((rng.choice(lfs), rng.choice(lfs)))
+            for _ in range(60 if tier == "quick" else 600):
+                if pool:
+                    pairs.append((rng.choice(pool), rng.choice(pool)))
+            for a, b in pairs:
+                lines.append("cmp %s ber %s ber %s" % (tn, enc_der(TYPES[tn], a, "input").hex(), enc_der(TYPES[tn], b, "input").hex()))
+                meta.append(("cmp", tn, a, b))
         batches.append(lines)
         metas.append(meta)
     outs = par_lines(m["exe"], batches, env=SAN_ENV)
@@ -952,6 +969,29 @@ def time_layer(run, rng, tier, model):
             out = out + ["CRASH"] * (len(lines) - len(out))
         for l, me, o in zip(lines, meta, out):
             if me is None:
+                continue
+            if me[0] == "cmp":
+                _c, tn, a, b = me
+                run.case("TZ=%s %s" % (tz_string(tz), l))
+                want = value_order(a, b)
+                run.count("time_compare_%s_%s" % (tn, "equal" if want == 0 else "order"))
+                if tn == "G" and a["t"] == b["t"] and not (unreadable(a) or unreadable(b)):
+                    # faithfulness: the fraction branch of GeneralizedTime_compare against the extracted frac_cmp_c
+                    mlines.append("gtfraccmp %d %d %d %d" % (c_fraction(a["text"]) + c_fraction(b["text"])))
+                    mexp.append(("cmp", o.strip(), l, tz))
+                if o.strip() == str(want):
+                    continue
+                if unreadable(a) or unreadable(b):
+                    # the reader answers the error value: the comparison falls back to "invalid sorts first" / the stored octets
+                    run.known_finding("C06-gt-fraction-of-hour-minute" if not (a["t"] == -1 or b["t"] == -1) else "C17-time-minus-one", "TZ=%s %s" % (tz_string(tz), l))
+                    continue
+                if tn == "G" and o.strip() == str(tree_compare(a, b)) and c_fraction(a["text"])[1] != c_fraction(b["text"])[1]:
+                    run.known_finding("C06-gt-compare-fraction-digits", "TZ=%s %s" % (tz_string(tz), l))
+                    continue
+                run.violation("oracle:compare(%s)" % ("equal" if want == 0 else "order"),
+                              {"module": m["text"], "type": tn, "TZ": tz_string(tz), "command_line": l, "c": o, "expected": str(want), "a": {k: a[k] for k in ("t", "frac", "text", "form")},
+                               "b": {k: b[k] for k in ("t", "frac", "text", "form")}, "expected_of_unchanged_tree": str(tree_compare(a, b)),
+                               "what": "compare_struct of two time values does not follow (instant, fraction): equal values in different spellings must compare equal, different values in their order"})
                 continue
             tn, v, insyn = me
             ls = leaves(TYPES[tn], v)
@@ -999,9 +1039,16 @@ def time_layer(run, rng, tier, model):
     if rcm != 0 or len(mo) != len(mlines):
         run.violation("model:driver", {"what": "model driver failed (time layer)", "rc": rcm, "stderr": me_[-1500:]}, no_input=True)
         mo = []
-    for ml, o, (cder, base, lf) in zip(mlines, mo, mexp):
+    for ml, o, ex in zip(mlines, mo, mexp):
         run.case(ml)
         o = o.strip()
+        if ex[0] == "cmp":
+            run.count("model_gtfraccmp")
+            if o != ex[1]:
+                run.violation("correspondence:CanonicalTime.frac_cmp_c", {"what": "GeneralizedTime_compare on two values of one instant differs from the extracted model of its fraction branch",
+                                                                          "model": o, "c": ex[1], "model_command": ml, "command_line": ex[2], "TZ": tz_string(ex[3])}, no_input=True)
+            continue
+        cder, base, lf = ex
         if cder is not None:
             run.count("model_gtcanon")
             want = "!" if o == "FAIL" else _tl_hex(0x18, o)
